@@ -181,8 +181,14 @@ func rawDH(priv, pub [32]byte) [32]byte {
 // refDerive computes challenge and frame keys for the party that sent locPub and
 // received remPub (exactly the bytes seen on the wire).
 func refDerive(locPub, locPriv, remPub [32]byte) *refSession {
+	return refDeriveDH(locPub, locPriv, remPub, rawDH(locPriv, remPub))
+}
+
+// refDeriveDH: the same with the shared secret given (an attacker who sent a low-order
+// point knows that its victim computes the all-zero secret).
+func refDeriveDH(locPub, locPriv, remPub, dh [32]byte) *refSession {
 	s := &refSession{locPub: locPub, locPriv: locPriv, remPub: remPub}
-	s.dh = rawDH(locPriv, remPub)
+	s.dh = dh
 	lo, hi := locPub, remPub
 	locIsLeast := true
 	for i := 0; i < 32; i++ {
